@@ -190,8 +190,11 @@ def user_valid(minor, sf):
     import decimal
     digits = -decimal.Decimal(sf[2:]).normalize().as_tuple().exponent
     digits = max(digits, 0)
-    if v <= 0:
-        return None         # unspecified: documented only for minor=None
+    # the docstring's ValueErrors ("not > 0", "1 is not an integer multiple",
+    # "does not fit given minor_unit") hold whether or not a minor unit is
+    # given as well
+    if v <= 0 or (1 / v).denominator != 1:
+        return False
     return digits == minor
 
 
